@@ -40,5 +40,5 @@ mixed funs(int n) {
   function f1 = (: proto :);
   function f4 = (: $1 + $2 + g1 :);
   function f5 = function(int p, int q) { int r = p * q; return function(int z) { int y = z; return y + 1; }; };
-  return ({ f1, f4, evaluate(f4, 1, 2), (*f5)(n, 2), (: gm :), (: write :), (: sefun_add, 1 :) });
+  return ({ f1, f4, evaluate(f4, 1, 2), (*f5)(n, 2), (: gm :), (: write :), (: sefun_add, 1 :), time() > 0, sizeof(ga), strlen(gs) });
 }
